@@ -2,7 +2,7 @@
    default; a wrapped callback runs after the default effect succeeded. *)
 From Coq Require Import String List Bool Arith.
 From Verif Require Import Base.ListX Base.Json Base.Free Pub.Events Pub.Calls Pub.Value Pub.EffectSpec Pub.Util Pub.SideEffect Pub.Fed Pub.Monitors.
-From Verif Require Import Proofs.OnlyProofs Proofs.OrderProofs Proofs.DeliveryProofs Proofs.ForwardIffProofs Proofs.TargetProofs Proofs.EffectProofs Proofs.FedProofs.
+From Verif Require Import Proofs.OnlyProofs Proofs.OrderProofs Proofs.DeliveryProofs Proofs.ForwardIffProofs Proofs.TargetProofs Proofs.StoreProofs Proofs.EffectProofs Proofs.FedProofs.
 Import ListNotations.
 Open Scope string_scope.
 Open Scope list_scope.
@@ -96,6 +96,55 @@ Proof. exact follow_do_nothing. Qed.
 Theorem C04_follow_reject : forall cfg inbox a, c_on_follow cfg = 2 -> only no_update (follow cfg inbox a).
 Proof. exact follow_reject_leaves_followers. Qed.
 
+(* ---- what is stored when a default callback succeeds, for EVERY environment (every answer of every call: env is any
+   function from events to answers).  S env m = the Create / Update / Delete / SetInbox / SetOutbox / BatchDeliver events of
+   the run of m against env, in order. ---- *)
+(* Create stores every object - the embedded value, or what was fetched for an IRI - once, in order, and nothing else *)
+Theorem C04_create_stores_every_object : forall env cfg inbox a, res_env env (create cfg inbox a) = Ok tt ->
+  exists vals, Forall2 (fun e t => res_env env (value_or_fetch inbox e) = Ok t) (elems0 "object" a) vals /\
+               S env (create cfg inbox a) = map (fun t => EDb "Create" [canon t]) vals.
+Proof. exact create_stores_every_object. Qed.
+Theorem C04_fetched_value : forall env box e t, res_env env (value_or_fetch box e) = Ok t ->
+  e_type "object" e = Some t \/
+  (e_type "object" e = None /\ e_is_iri e = true /\ exists j, env (EDeref (e_iri e)) = AJson j /\ to_type j = Ok t).
+Proof. exact value_or_fetch_spec. Qed.
+(* Update stores exactly the named (embedded) objects, Delete removes exactly the named ids *)
+Theorem C04_update_stores_exactly_named : forall env cfg a, res_env env (update cfg a) = Ok tt ->
+  exists vals, Forall2 (fun e t => e_type "object" e = Some t) (elems0 "object" a) vals /\
+               S env (update cfg a) = map (fun t => EDb "Update" [canon t]) vals.
+Proof. exact update_stores_exactly_named. Qed.
+Theorem C04_delete_removes_exactly_named : forall env cfg a, res_env env (delete cfg a) = Ok tt ->
+  exists ids, Forall2 (fun e i => to_id "object" e = Ok i) (elems0 "object" a) ids /\
+              S env (delete cfg a) = map (fun i => EDb "Delete" [JStr i]) ids.
+Proof. exact delete_removes_exactly_named. Qed.
+(* Like / Announce against ANY world (which objects are owned, what is stored for them): whenever they succeed, exactly the
+   owned objects were updated, in order, each to prepend_on of what was stored (C04_front says what that is); nothing else
+   was stored, created, deleted or sent *)
+Theorem C04_like_every_owned_object : forall owns stored env,
+  (forall i, env (ELock i) = AOk) -> (forall i, env (EDb "Owns" [JStr i]) = ABool (owns i)) ->
+  (forall i, env (EDb "Get" [JStr i]) = AJson (stored i)) -> (forall x, env (EDb "Update" [x]) = AOk) ->
+  forall cfg a, res_env env (like cfg a) = Ok tt ->
+  exists id objs, get_id a = Ok id /\ to_ids "object" (elems0 "object" a) = Ok objs /\
+    S env (like cfg a) = like_updates owns stored "likes" id objs /\
+    forall o, In o objs -> owns o = true -> exists t', prepend_on "likes" id (stored o) = Ok t'.
+Proof.
+  intros owns stored env H1 H2 H3 H4 cfg a H.
+  destruct (like_total owns stored env H1 H2 H3 H4 cfg a H) as [id [objs [E1 [E2 [E3 [_ E5]]]]]].
+  exists id, objs. repeat split; assumption.
+Qed.
+Theorem C04_announce_every_owned_object : forall owns stored env,
+  (forall i, env (ELock i) = AOk) -> (forall i, env (EDb "Owns" [JStr i]) = ABool (owns i)) ->
+  (forall i, env (EDb "Get" [JStr i]) = AJson (stored i)) -> (forall x, env (EDb "Update" [x]) = AOk) ->
+  forall cfg a, res_env env (announce cfg a) = Ok tt ->
+  exists id objs, get_id a = Ok id /\ to_ids "object" (elems0 "object" a) = Ok objs /\
+    S env (announce cfg a) = like_updates owns stored "shares" id objs /\
+    forall o, In o objs -> owns o = true -> exists t', prepend_on "shares" id (stored o) = Ok t'.
+Proof.
+  intros owns stored env H1 H2 H3 H4 cfg a H.
+  destruct (announce_total owns stored env H1 H2 H3 H4 cfg a H) as [id [objs [E1 [E2 [E3 [_ E5]]]]]].
+  exists id, objs. repeat split; assumption.
+Qed.
+
 Print Assumptions C04_factor.
 Print Assumptions C04_wrapped_after_effect.
 Print Assumptions C04_like_owned_only.
@@ -109,3 +158,9 @@ Print Assumptions C04_follow_nothing.
 Print Assumptions C04_follow_reject.
 Print Assumptions C04_add_every_owned_target.
 Print Assumptions C04_remove_every_owned_target.
+Print Assumptions C04_create_stores_every_object.
+Print Assumptions C04_fetched_value.
+Print Assumptions C04_update_stores_exactly_named.
+Print Assumptions C04_delete_removes_exactly_named.
+Print Assumptions C04_like_every_owned_object.
+Print Assumptions C04_announce_every_owned_object.
